@@ -60,15 +60,16 @@ def camelTail : S → S
 /-- common prefix of to_camel_case / to_pascal_case -/
 def normSep (s : S) : S := collapse '_' (replaceChar ' ' '_' (replaceChar '-' '_' s))
 
-/-- `to_camel_case`; `none` = IndexError on the empty string. -/
+/-- `to_camel_case` (total since fix 475dbb1: the empty string is returned unchanged; `Option` is kept so
+that a transform that raises stays expressible). -/
 def toCamel (s : S) : Option S :=
   match normSep s with
-  | [] => none
+  | [] => some []
   | c :: r => some (c.toLower :: camelTail r)
 
 def toPascal (s : S) : Option S :=
   match normSep s with
-  | [] => none
+  | [] => some []
   | c :: r => some (c.toUpper :: camelTail r)
 
 /-- `re.sub(r'((?!^)(?<!SEP)[A-Z][a-z]+|(?<=[a-z0-9])[A-Z])', r'SEP\1', s)` as a one-pass
